@@ -366,6 +366,22 @@ MorphClauses(e) ==
        C14_morph_trailing_gap_preserved |-> (okc /\ n > 0) => e.ret.hi - r[n].e = e.pre.hi - es[n].e,
        C14_morph_lo_kept |-> okc => e.ret.lo = e.pre.lo ]
 
+(* ---------------- constructors (C05) --------------------------------------------- *)
+\* e.args.raw: the entry list handed to IntervalTier(...) / PointTier(...) in any order, possibly overlapping or degenerate;
+\* e.args.lo/hi: the minT/maxT arguments (labels may be padded with white space by the harness: they must come back trimmed)
+ConstructClauses(e) ==
+  LET raw == e.args.raw  isI == e.args.kind = "I"
+      valid == isI => (/\ \A i \in Idx(raw) : raw[i].s < raw[i].e
+                       /\ \A i, j \in Idx(raw) : i # j => ~Overlaps(raw[i], raw[j].s, raw[j].e))
+      sorted == IF isI THEN SortIv(raw) ELSE SortPt(raw)
+      lo == IF isI THEN MinOf({e.args.lo} \cup {raw[i].s : i \in Idx(raw)}) ELSE MinOf({e.args.lo} \cup Times(raw))
+      hi == IF isI THEN MaxOf({e.args.hi} \cup {raw[i].e : i \in Idx(raw)}) ELSE MaxOf({e.args.hi} \cup Times(raw))
+  IN [ C05_constructor_rejects_illformed_entries |-> (~valid) => (~Ok(e) /\ e.pe),
+       C05_constructor_accepts_wellformed_entries |-> valid => Ok(e),
+       C05_constructor_sorts_and_keeps_entries |-> (valid /\ RetTier(e)) =>
+            (IF isI THEN e.ret.ents = sorted ELSE SameBag(e.ret.ents, sorted) /\ WFTier(e.ret)),
+       C05_constructor_span_is_hull |-> (valid /\ RetTier(e)) => (e.ret.lo = lo /\ e.ret.hi = hi) ]
+
 (* ---------------- new() ------------------------------------------------------ *)
 NewClauses(e) == [ C13_new_is_equal_copy |-> RetTier(e) /\ e.ret = e.pre ]
 
@@ -373,7 +389,7 @@ NewClauses(e) == [ C13_new_is_equal_copy |-> RetTier(e) /\ e.ret = e.pre ]
 FailsOf(r) == {k \in DOMAIN r : ~r[k]}
 
 IsCopyOp(op) == op \in {"crop", "eraseRegion", "insertSpace", "editTimestamps", "appendTier", "union", "difference",
-                         "intersection", "mergeLabels", "dejitter", "morph", "new", "spaceErase", "editRoundTrip"}
+                         "intersection", "mergeLabels", "dejitter", "morph", "new", "spaceErase", "editRoundTrip", "construct"}
 
 OpClauses(e) ==
   CASE e.op = "crop" -> FailsOf(CropClauses(e))
@@ -392,6 +408,7 @@ OpClauses(e) ==
     [] e.op = "dejitter" -> FailsOf(DejitterClauses(e))
     [] e.op = "morph" -> FailsOf(MorphClauses(e))
     [] e.op = "new" -> FailsOf(NewClauses(e))
+    [] e.op = "construct" -> FailsOf(ConstructClauses(e))
     [] OTHER -> {"UNKNOWN_OP"}
 
 Fails(e) == OpClauses(e)
